@@ -52,7 +52,7 @@ BASE_TRUSTED = [
 ]
 
 
-class Hang(Exception):
+class Hang(BaseException):
     """A real call did not return within the per-operation alarm: an outcome, not a harness timeout."""
 
 
